@@ -4,6 +4,7 @@ import MosnVerif.Lemmas.HealthCheck
 import MosnVerif.Lemmas.HealthLoop
 import MosnVerif.Lemmas.HealthDispatch
 import MosnVerif.Lemmas.HealthLifecycleRef
+import MosnVerif.Lemmas.HealthShare
 /-!
 # C16 — host health state is never lost, and thresholds are exact (property theorems only)
 
@@ -753,5 +754,212 @@ example : soleOwner [HealthLifecycle.Op.setHosts 0 [0, 1], .setHosts 1 [0], .res
 example : (HealthLifecycle.Op.setHosts 0 [1]).isLifecycle = true := rfl
 
 end Lifecycle
+
+section Share
+open MosnVerif.Model.HealthLifecycle (Addr Cid Word World Checker runOps soleOwner fresh effThr)
+open MosnVerif.Model.HealthCheck MosnVerif.Model.HealthShare
+
+/-! ## Part D — one health word per ADDRESS for the whole process, health checkers per CLUSTER
+
+`GetHealthFlagPointer(addr)` hands every host object of an address — in whichever cluster — the same word
+(`gen_word_by_address`), a cluster may have no health checker at all, and a cluster update creates a new health checker
+for the inherited host set.  The process model (Model/HealthShare) runs the cluster manager's operations over the
+life-cycle world; which flag operations `simpleCluster.UpdateHosts` and `NewSimpleHost` perform and which counters a new
+session checker starts with are REGENERATED (Gen/HealthShare), so an edit there changes what these theorems talk about. -/
+
+/-- **share_refines_lifecycle**: for every configuration (which clusters have a health checker, thresholds), all initial
+words and EVERY list of cluster-manager operations, the process run is the life-cycle run of the compiled cluster-level
+operations: host updates of clusters WITHOUT a health checker compile to nothing at all.  (Holds because the regenerated
+`updateHostsWrites` / `newHostWrites` are empty and new session checkers start with both counters zero.) -/
+theorem share_refines_lifecycle (checked : Cid → Bool) (cfg : Cid → Nat × Nat) (words0 : Addr → Word) (ops : List SOp) :
+    (HealthShare.run (HealthShare.St.init checked cfg words0) ops).w =
+      runOps (World.init cfg words0) (compileAll (Cfg.init checked) ops) :=
+  (run_eq _ ops).1
+
+/-- **host_and_cluster_updates_preserve_health**: in EVERY state, `UpdateClusterHosts / AppendClusterHosts /
+RemoveClusterHosts / AddOrUpdatePrimaryCluster` of ANY cluster — with a health checker, without one, gaining or losing
+one — change no health word of any address and deliver no callback: removing and re-adding a host does not reset the
+word of its address, a cluster that does not check the address cannot heal a host another cluster's checker marked. -/
+theorem host_and_cluster_updates_preserve_health (s : HealthShare.St) (op : SOp) (h : isHostOp op = true) :
+    (HealthShare.step s op).1.w.words = s.w.words ∧ (HealthShare.step s op).2 = none :=
+  hostOp_preserves s op h
+
+/-- **active_hc_bit_owned_by_checkers**: over EVERY history of the process, whenever an operation changes
+`FAILED_ACTIVE_HC` of an address `a`, that operation is a check result handed to a live session checker `c` that SOME
+cluster `k` keeps for `a` (so `k` has a health checker and lists `a`), and the result completes a threshold-long run of
+THAT session checker: a success completing ≥ healthy_threshold(k) consecutive successes clears it, a failure / timeout
+completing ≥ unhealthy_threshold(k) consecutive failures sets it.  No operation of a cluster without a checker, no host
+update, no cluster update, no other condition's writer ever does. -/
+theorem active_hc_bit_owned_by_checkers (checked : Cid → Bool) (cfg : Cid → Nat × Nat) (words0 : Addr → Word)
+    (ops : List SOp) (op : SOp) (a : Addr)
+    (hne : ((HealthShare.run (HealthShare.St.init checked cfg words0) ops).w.words a).active ≠
+           ((HealthShare.step (HealthShare.run (HealthShare.St.init checked cfg words0) ops) op).1.w.words a).active) :
+    ∃ k r c, op = .result k a r ∧ (HealthShare.run (HealthShare.St.init checked cfg words0) ops).c.checked k = true ∧
+      (HealthShare.run (HealthShare.St.init checked cfg words0) ops).w.chk k a = some c ∧ c.running = true ∧
+      ((r = .success ∧ ((HealthShare.run (HealthShare.St.init checked cfg words0) ops).w.words a).active = true ∧
+          ((HealthShare.run (HealthShare.St.init checked cfg words0) ops).w.thr k).2 ≤ trail Result.ok (.success :: c.rev)) ∨
+       (r.bad = true ∧ ((HealthShare.run (HealthShare.St.init checked cfg words0) ops).w.words a).active = false ∧
+          ((HealthShare.run (HealthShare.St.init checked cfg words0) ops).w.thr k).1 ≤ trail Result.bad (r :: c.rev))) := by
+  have hg := good_run checked cfg words0 ops
+  have hn := noChk_run _ ops (noChk_init checked cfg words0)
+  generalize HealthShare.run (HealthShare.St.init checked cfg words0) ops = s at hne hg hn ⊢
+  have hck : ∀ k c, s.w.chk k a = some c → s.c.checked k = true := by
+    intro k c hc
+    cases h : s.c.checked k with
+    | true => rfl
+    | false => rw [hn k h a] at hc; cases hc
+  have key : ∀ o : HealthLifecycle.Op, (HealthShare.step s op).1.w = (HealthLifecycle.step s.w o).1 →
+      ∃ k r c, o = .result k a r ∧ s.w.chk k a = some c ∧ c.running = true ∧
+        ((r = .success ∧ (s.w.words a).active = true ∧ (s.w.thr k).2 ≤ trail Result.ok (.success :: c.rev)) ∨
+         (r.bad = true ∧ (s.w.words a).active = false ∧ (s.w.thr k).1 ≤ trail Result.bad (r :: c.rev))) := by
+    intro o ho
+    rw [ho] at hne
+    cases hb : (s.w.words a).active with
+    | true =>
+      have ha : ((HealthLifecycle.step s.w o).1.words a).active = false := by
+        cases h : ((HealthLifecycle.step s.w o).1.words a).active <;> simp_all
+      obtain ⟨k, c, e, hc, hr, ht⟩ := HealthLifecycle.cleared_only_by_success s.w hg o a hb ha
+      exact ⟨k, .success, c, e, hc, hr, Or.inl ⟨rfl, rfl, ht⟩⟩
+    | false =>
+      have ha : ((HealthLifecycle.step s.w o).1.words a).active = true := by
+        cases h : ((HealthLifecycle.step s.w o).1.words a).active <;> simp_all
+      obtain ⟨k, c, r, e, hbad, hc, hr, ht⟩ := HealthLifecycle.set_only_by_failure s.w hg o a hb ha
+      exact ⟨k, r, c, e, hc, hr, Or.inr ⟨hbad, rfl, ht⟩⟩
+  cases op with
+  | result k' a' r' =>
+    obtain ⟨k, r, c, e, rest⟩ := key (.result k' a' r') (step_result s k' a' r').1
+    cases e
+    exact ⟨_, _, c, rfl, hck _ c rest.1, rest⟩
+  | outlier a' on =>
+    obtain ⟨k, r, c, e, _⟩ := key (.outlier a' on) (step_outlier s a' on)
+    cases e
+  | update k hs => exact absurd (by rw [(hostOp_preserves s (.update k hs) rfl).1]) hne
+  | append k x => exact absurd (by rw [(hostOp_preserves s (.append k x) rfl).1]) hne
+  | remove k x => exact absurd (by rw [(hostOp_preserves s (.remove k x) rfl).1]) hne
+  | reconf k cf => exact absurd (by rw [(hostOp_preserves s (.reconf k cf) rfl).1]) hne
+
+/-- **single_checker_exact_across_clusters**: when cluster `k` is the only cluster that lists address `a` WHILE HAVING A
+HEALTH CHECKER in the whole history `ops ++ rest` (`soleOwner` of the compiled list: other clusters may list, update,
+drop and re-add `a` as often as they like as long as they have no health checker then), the threshold clause of the
+property holds for `k`'s session checker `c` whatever the other clusters do: the condition flips EXACTLY at the
+`unhealthy_threshold`-th consecutive failure while not failing / the `healthy_threshold`-th consecutive success while
+failing, over the checker's own history since its creation, and `changed` is reported exactly then. -/
+theorem single_checker_exact_across_clusters (checked : Cid → Bool) (cfg : Cid → Nat × Nat) (words0 : Addr → Word)
+    (ops rest : List SOp) (k : Cid) (a : Addr) (r : Result) (c : Checker)
+    (hso : soleOwner (compileAll (Cfg.init checked) (ops ++ rest)) k a = true)
+    (hc : (HealthShare.run (HealthShare.St.init checked cfg words0) ops).w.chk k a = some c) :
+    let s := HealthShare.run (HealthShare.St.init checked cfg words0) ops
+    let before := (s.w.words a).active
+    let changed := (!before && r.bad && trail Result.bad (r :: c.rev) == (s.w.thr k).1) ||
+                   (before && r.ok && trail Result.ok (r :: c.rev) == (s.w.thr k).2)
+    (HealthShare.step s (.result k a r)).2 = some ⟨changed, r.ok, if changed then !before else before⟩ ∧
+    ((HealthShare.step s (.result k a r)).1.w.words a).active = (if changed then !before else before) := by
+  have hw := share_refines_lifecycle checked cfg words0 ops
+  have hsub : ∀ op ∈ compileAll (Cfg.init checked) ops, op ∈ compileAll (Cfg.init checked) (ops ++ rest) := by
+    intro op h
+    rw [compileAll_append]
+    exact List.mem_append_left _ h
+  rw [hw] at hc
+  have := lifecycle_threshold_exact cfg words0 _ _ hsub k a r c hso hc
+  intro s
+  rw [(step_result s k a r).1, (step_result s k a r).2]
+  show _ ∧ _
+  simp only [s, hw]
+  exact this
+
+/-- **recreated_checker_starts_fresh**: a cluster update (`AddOrUpdatePrimaryCluster` with a health_check section), in
+EVERY state — whatever the old session checker had counted, whether or not the address is marked: the word of no
+address changes, no callback is delivered, and the new health checker keeps for every inherited address a NEW running
+session checker with empty history and both counters zero, under the new thresholds. -/
+theorem recreated_checker_starts_fresh (s : HealthShare.St) (k : Cid) (u h : Nat) (a : Addr) (ha : a ∈ s.c.mem k) :
+    let s' := (HealthShare.step s (.reconf k (some (u, h)))).1
+    s'.w.chk k a = some fresh ∧ s'.w.words = s.w.words ∧ (HealthShare.step s (.reconf k (some (u, h)))).2 = none ∧
+    s'.w.thr k = effThr u h := by
+  have hp := hostOp_preserves s (.reconf k (some (u, h))) rfl
+  refine ⟨?_, hp.1, hp.2, ?_⟩
+  · rw [step_eq]
+    simp only [compile, runLc, List.foldl_cons, List.foldl_nil, HealthLifecycle.step]
+    rw [HealthLifecycle.setHosts_chk]
+    simp [HealthLifecycle.upd_apply, ha, HealthLifecycle.freshOr]
+  · rw [step_eq]
+    simp only [compile, runLc, List.foldl_cons, List.foldl_nil, HealthLifecycle.step]
+    rw [HealthLifecycle.setHosts_thr]
+    simp [HealthLifecycle.upd_apply]
+
+/-- **recreated_checker_no_spurious_change**: the first result the re-created checker handles is handled exactly as by a
+session checker without any history (`HealthCheck.step` from zero counters and the CURRENT flag of the address): it
+reports `changed` only when it really flips the condition, which needs the new threshold to be 1 and the result to
+oppose the flag — a cluster update never announces a transition that did not happen, and never swallows one. -/
+theorem recreated_checker_no_spurious_change (s : HealthShare.St) (k : Cid) (u h : Nat) (a : Addr) (ha : a ∈ s.c.mem k) (r : Result) :
+    let s' := (HealthShare.step s (.reconf k (some (u, h)))).1
+    let before := (s.w.words a).active
+    let changed := (!before && r.bad && decide ((effThr u h).1 = 1)) || (before && r.ok && decide ((effThr u h).2 = 1))
+    (HealthShare.step s' (.result k a r)).2 = some ⟨changed, r.ok, if changed then !before else before⟩ ∧
+    ((HealthShare.step s' (.result k a r)).1.w.words a).active = (if changed then !before else before) := by
+  intro s'
+  obtain ⟨hc, hw, _, ht⟩ := recreated_checker_starts_fresh s k u h a ha
+  have hl := HealthLifecycle.result_live k a r s'.w fresh hc rfl
+  rw [(step_result s' k a r).1, (step_result s' k a r).2]
+  simp only [HealthLifecycle.step]
+  rw [hl.1, hl.2.1]
+  have hw' : s'.w.words a = s.w.words a := by rw [hw]
+  simp only [HealthLifecycle.handled, hw', ht, fresh, HealthLifecycle.upd_apply, if_true]
+  cases hr : r.ok with
+  | true =>
+    have : r = .success := (HealthLifecycle.ok_true_iff r).1 hr
+    subst this
+    rw [HealthLifecycle.step_success]
+    cases (s.w.words a).active <;> simp [Result.bad, Result.ok] <;> (have ht' : s'.w.thr k = effThr u h := ht; rw [ht']; omega)
+  | false =>
+    rw [HealthLifecycle.step_bad _ _ _ _ _ r hr]
+    cases (s.w.words a).active <;> simp [Result.bad, hr] <;> (have ht' : s'.w.thr k = effThr u h := ht; rw [ht']; omega)
+
+/-- the model's observations always satisfy the property predicate the driver applies to the implementation (kind sh),
+for every configuration, all initial words and EVERY list of cluster-manager operations -/
+theorem spec_holds_on_model_sh (m n : Nat) (checked : Cid → Bool) (cfg : Cid → Nat × Nat) (words0 : Addr → Word) (ops : List SOp) :
+    HealthShare.holds m n checked cfg words0 ops (HealthShare.trace m (HealthShare.St.init checked cfg words0) ops) = true :=
+  HealthShare.holdsFrom_trace m n _ ops (HealthShare.St.init checked cfg words0) _
+    (HealthLifecycle.sim_init _ cfg words0) (fun _ h => h)
+
+/-- **unchecked_update_clearing_heals_without_success** (negation witness for class (i)) -/
+theorem unchecked_update_clearing_heals_without_success :
+    -- NEGATION WITNESS for class (i): cluster 0 (thresholds 1/2) marks address 0 with one failed check; cluster 1 has NO
+    -- health checker and lists the same address.  If its host update cleared FAILED_ACTIVE_HC "as a stale mark"
+    -- (what is SEEN is word 0 after `update 1 [0]`), the host would be healthy again with zero successful checks:
+    -- the predicate rejects it, while it accepts what the current code shows (word stays 1)
+    let ck : Cid → Bool := fun k => k == 0
+    let cfg : Cid → Nat × Nat := fun _ => (1, 2)
+    let ops : List SOp := [.update 0 [0], .update 1 [0], .result 0 0 .failure, .update 1 [0]]
+    let good := HealthShare.trace 2 (HealthShare.St.init ck cfg (fun _ => ⟨false, false⟩)) ops
+    let healed : List HealthShare.Seen := good.take 3 ++ [⟨fun _ => ⟨false, false⟩, none, [[(0, true)], [(0, true)]]⟩]
+    HealthShare.holds 2 1 ck cfg (fun _ => ⟨false, false⟩) ops good = true ∧
+    HealthShare.holds 2 1 ck cfg (fun _ => ⟨false, false⟩) ops healed = false ∧
+    (good.map (fun o => (o.words 0).toNat)) = [0, 0, 1, 1] := by
+  decide
+
+-- non-vacuity of single_checker_exact_across_clusters: cluster 1 WITHOUT a checker lists, re-lists, drops and re-adds the
+-- address cluster 0 checks, and is itself re-configured (still without a checker): cluster 0 is the sole checking owner
+example :
+    soleOwner (compileAll (Cfg.init (fun k => k == 0))
+      [.update 0 [0], .update 1 [0], .result 0 0 .failure, .update 1 [0], .remove 1 0, .append 1 0, .reconf 1 none,
+       .result 0 0 .success]) 0 0 = true ∧
+    ((HealthShare.run (HealthShare.St.init (fun k => k == 0) (fun _ => (1, 1)) (fun _ => ⟨false, false⟩))
+      [.update 0 [0], .update 1 [0], .result 0 0 .failure, .update 1 [0]]).w.chk 0 0).isSome = true := by decide
+-- … and it fails, as it must, once cluster 1 gains a health checker while listing the address (class (iii), the stated
+-- exception `shared_address_not_exact` of Part C)
+example :
+    soleOwner (compileAll (Cfg.init (fun k => k == 0)) [.update 0 [0], .update 1 [0], .reconf 1 (some (1, 1))]) 0 0 = false := by
+  decide
+-- a cluster update while the address is marked (thresholds 1/2 → 2/2): flag kept, counters restart, first success silent,
+-- the second one heals and reports `changed`
+example :
+    (HealthShare.trace 1 (HealthShare.St.init (fun _ => true) (fun _ => (1, 2)) (fun _ => ⟨false, false⟩))
+      [.update 0 [0], .result 0 0 .failure, .reconf 0 (some (2, 2)), .result 0 0 .success, .result 0 0 .success]).map
+      (fun o => ((o.words 0).toNat, o.cb)) =
+    [(0, none), (1, some ⟨true, false, true⟩), (1, none), (1, some ⟨false, true, true⟩), (0, some ⟨true, true, false⟩)] := by
+  decide
+example : isHostOp (.reconf 1 none) = true ∧ isHostOp (.update 1 [0]) = true := by decide
+
+end Share
 
 end MosnVerif.Props.C16
